@@ -12,6 +12,7 @@ pub mod c08;
 pub mod c09;
 pub mod c15;
 pub mod c16;
+pub mod c17;
 pub mod c19;
 pub mod codec;
 pub mod hcobs_small;
@@ -31,7 +32,7 @@ pub struct PropDef {
 }
 
 pub fn all() -> Vec<PropDef> {
-    vec![c01::def(), c02::def(), c06::def(), c07::def(), c08::def(), c09::def(), c15::def(), c16::def()]
+    vec![c01::def(), c02::def(), c06::def(), c07::def(), c08::def(), c09::def(), c15::def(), c16::def(), c17::def()]
 }
 
 pub fn find(id: &str) -> Option<PropDef> {
